@@ -1,7 +1,7 @@
 """C03 - a transaction runs only when it is fully enabled."""
 
 from tv.designs import gen_spec
-from tv.props._core_a import run_design
+from tv.props._core_a import run_design, tier_opts
 
 ID = "C03"
 ENGINE = "A"
@@ -25,7 +25,7 @@ def budget(tier):
 
 
 def strategy(tier):
-    return gen_spec(allow_rels=True, allow_rdep=True)
+    return gen_spec(**{**tier_opts(tier), **dict(allow_rels=True, allow_rdep=True)})
 
 
 def run_case(case):
